@@ -78,7 +78,7 @@ def borrow_search(tier, seed, hbin, rundir, _alarm):
 
 
 def hash_fuse_search(tier, seed, hbin, rundir, _alarm):
-    """C10: panics inside the user's Hash / Eq (and everything else) at the
+    """C10: panics inside the user's Hash / Eq / Drop (and everything else) at the
     k-th callback, caught.  IndexMap performs the hashing and probing, so the
     model does not count these callbacks: implementation-only.  After every
     step the raw tables must be well-formed (the state the unchecked accesses
@@ -86,6 +86,15 @@ def hash_fuse_search(tier, seed, hbin, rundir, _alarm):
     later operation may abort."""
     count = 3000 if tier == "quick" else 30000
     stats = dict(hash_fuse_histories=0, hash_fuse_unwound=0)
+    runs = []
+    # witnesses of repaired defects first (implementation-only corpus: `hfuse` lines have no model counterpart)
+    cdir = os.path.join(os.path.dirname(os.path.dirname(os.path.abspath(__file__))), "corpus_impl")
+    for f in sorted(os.listdir(cdir)) if os.path.isdir(cdir) else []:
+        if f.startswith("C10") and f.endswith(".hist"):
+            dst = os.path.join(rundir, "impl_" + f)
+            with open(os.path.join(cdir, f)) as src, open(dst, "w") as out:
+                out.write(src.read())
+            runs.append(dst)
     for hm in (0, 1):
         hist = os.path.join(rundir, "hfuse%d.hist" % hm)
         p = subprocess.run([hbin, "gen", "random", "--seed", str(seed + 77 + hm), "--count", str(count // 2), "--len", "50",
@@ -93,6 +102,8 @@ def hash_fuse_search(tier, seed, hbin, rundir, _alarm):
                             "--hashmode", str(hm), "--out", hist], stdout=subprocess.PIPE, stderr=subprocess.STDOUT, text=True)
         if p.returncode != 0:
             raise RuntimeError("hfuse gen failed: " + p.stdout[-300:])
+        runs.append(hist)
+    for hist in runs:
         tr = hist + ".impl"
         p = subprocess.run([hbin, "exec", hist, tr, "--timeout", "300"], stdout=subprocess.PIPE, stderr=subprocess.STDOUT, text=True)
         traces = pqv_oracle.read_traces(tr)
@@ -106,7 +117,7 @@ def hash_fuse_search(tier, seed, hbin, rundir, _alarm):
                     had_unwound = True
                     stats["hash_fuse_unwound"] += 1
                 if line.startswith("fault ub") or line.startswith("fault fuel"):
-                    why = "abort / out-of-bounds access after a caught panic (Hash/Eq/cmp/... fused): " + line.split(" ;")[0]
+                    why = "abort / out-of-bounds access after a caught panic (Hash/Eq/Drop/cmp/... fused): " + line.split(" ;")[0]
                 elif line.startswith("fault") and not had_unwound:
                     why = "panic without a preceding caught panic"
                 else:
